@@ -818,19 +818,21 @@ class Model(Object):
             else:
                 forward = reaction.forward_variable
                 reverse = reaction.reverse_variable
+                # The coefficients as the solver holds them: an objective does not
+                # have to be of the form c * (forward - reverse).
+                in_objective = self.solver.objective.get_linear_coefficients(
+                    [forward, reverse]
+                )
+                has_coefficient = any(coef != 0 for coef in in_objective.values())
 
                 if context:
-                    obj_coef = reaction.objective_coefficient
+                    if has_coefficient:
 
-                    if obj_coef != 0:
-
-                        def reset_objective_coefficient(
-                            forward=forward, reverse=reverse, obj_coef=obj_coef
-                        ):
+                        def reset_objective_coefficient(coefficients=in_objective):
                             # Look the objective up when undoing: it may have been
                             # replaced since the reaction was removed.
                             self.solver.objective.set_linear_coefficients(
-                                {forward: obj_coef, reverse: -obj_coef}
+                                coefficients
                             )
 
                         context(reset_objective_coefficient)
@@ -843,10 +845,7 @@ class Model(Object):
                 # Otherwise the solver interface can keep a stale reference to
                 # them in its cached objective expression, and the next objective
                 # change (or its undo) silently brings the removed variables back.
-                in_objective = self.solver.objective.get_linear_coefficients(
-                    [forward, reverse]
-                )
-                if any(coef != 0 for coef in in_objective.values()):
+                if has_coefficient:
                     self.solver.objective.set_linear_coefficients(
                         {forward: 0, reverse: 0}
                     )
